@@ -1,6 +1,7 @@
-"""The control-skeleton translator (DESIGN 3.2): emd/sift.py -> coq/gen/Gen_Skeleton.v.
+"""The control-skeleton translator (DESIGN 3.2 / 10.5): a LIBRARY plus the driver of emd/sift.py -> coq/gen/Gen_Skeleton.v.
 
-Emits, as terms of the deep-embedded mini language of coq/lib/PyLoop.v,
+Run as a script (`python harness/gen_skeleton.py`) it emits, as terms of the deep-embedded mini language of
+coq/lib/PyLoop.v,
   prog_get_next_imf   the whole body of get_next_imf
   prog_sift           the whole body of sift
   prog_mask_sift      the outer loop of mask_sift: the run of plain assignments right before the first
@@ -10,29 +11,67 @@ Emits, as terms of the deep-embedded mini language of coq/lib/PyLoop.v,
 coq/proofs/SkeletonFacts.v proves that the hand-written loops of coq/model/SiftCore.v compute exactly what
 these programs compute under the interpreter of PyLoop.v, for every behaviour of the opaque primitives.
 
+As a library (`import gen_skeleton` from a driver harness/gen_skel_<name>.py; see notes/TIE_AGENT_BRIEF.md):
+  generate(src_relpath, funcs, out_name, header_note, modules={'np'}, logger='logger')
+translates the listed functions of $EMD_REPO/<src_relpath> into $EMD_COQ_DIR/gen/<out_name>.
+
 The translation is STRUCTURAL, statement by statement and expression by expression. Normalisations (all of them):
   N1  docstrings are dropped; decorators are ignored; comments do not exist in the ast.
   N2  an expression statement `logger.<level>(...)` becomes SSkip (logging is C20's business); an `if` whose
       branches only log therefore keeps its test and has SSkip branches.
-  N3  `x op= e` becomes `x = x op e` for + - * //.
+  N3  `x op= e` becomes `x = x op e` (+ - * // structurally, any other operator through the opaque form N7).
   N4  `a or b or c` nests to the right, as Python evaluates it; same for `and`.
   N5  `e is None` -> EIsNone e, `e is not None` -> ENot (EIsNone e).
   N6  a call whose callee is a plain name, or a dotted name rooted at a module alias (np), is the opaque
-      primitive of that name: ECall "np.mean" args kwargs; `**d` is the keyword "**".
-  N7  OPAQUE FORM: a method call / attribute / slicing chain on a value, and a dict display, is ONE opaque
-      primitive whose name is the literal source text `ast.unparse(node)` and whose arguments are the free
-      variables of that text in order of first occurrence (module aliases excluded). Any textual change to
-      such an expression changes the primitive's name, hence the generated program, hence the mapping table
-      of SkeletonFacts.v must be revisited. Inside an opaque form only names, attributes, subscripts, slices,
-      constants, unary minus, tuple/list/dict displays and method/module calls may occur.
+      primitive of that name: ECall "np.mean" args kwargs; `**d` is the keyword "**". (A call through a local
+      name - a closure variable, say - is also just the primitive of that name.)
+  N7  OPAQUE FORM: ONE opaque primitive whose name is the literal source text `ast.unparse(node)` and whose
+      arguments are the free variables of that text in order of first occurrence. Any textual change to such
+      an expression changes the primitive's name, hence the generated program, hence the mapping table must
+      be revisited. Opaque are: a method call / attribute / slicing chain on a value, a dict display, and
+      (extension) everything the language has no construct for: comprehensions and generator expressions,
+      lambdas, conditional expressions, f-strings, `in` / `not in`, `is` with something other than None,
+      chained comparisons, unary minus / plus / ~, the binary operators other than + - * //, float (complex,
+      bytes, negative, ...) literals, set displays, displays and calls with starred / double-starred items,
+      calls whose callee is not a name, module attributes in value position (np.pi).  ALWAYS opaque as a
+      whole, even when a callee inside is itself a translation target.
+      FREE VARIABLES = the names read in the text that are names of the frame: parameters and assigned names
+      of the function and of the functions enclosing it (closures), minus module aliases and minus the names
+      bound inside the text itself (comprehension targets, lambda parameters). Globals and builtins (len,
+      range, other functions of the module) are not arguments.
   N8  `e[i]` with i a name or a non-negative int literal is EIndex; list and tuple displays are EList.
   N9  `raise Name(args)` -> SRaise "Name" args; `return` -> SReturn ENone; `pass` -> SSkip.
   N10 `'literal'.format(args)` (message texts) is the primitive "str.format" applied to the literal and args.
-EMD_REPO selects the source tree (default /repo); the output is $EMD_COQ_DIR/gen/Gen_Skeleton.v (default
+  N11 STORES: an assignment to a subscript / attribute target is an assignment to its base variable, computed
+      by a store primitive named by the unparsed target followed by " =" that receives the free variables
+      of the target and then the new value, and returns the NEW value of the base variable:
+      `imfs[:, ii] = v` -> SAssign "imfs" (ECall "imfs[:, ii] =" [imfs; ii; v] []),
+      `x[i] += v` -> SAssign "x" (ECall "x[i] +=" [x; i; v] []), `del x[k]` -> SAssign "x" (ECall "del x[k]" [x; k] []).
+      (Aliasing is not modelled: another name bound to the same object does not see the store.)
+  N12 `with E as p: body` -> `p = E` followed by the statements of body, spliced into the enclosing block
+      (`with E:` -> the expression statement E). The context manager's __enter__ / __exit__ are NOT modelled:
+      p is E itself, nothing runs when the block is left, exceptions are not intercepted.
+  N13 `for a, b in E: body` -> SFor "a, b" E (SUnpack [a; b] (EVar "a, b"); body): the loop variable is a
+      frame name that no Python identifier can clash with. `for x in E:` is SFor "x" E body as it stands.
+  N14 `try: B except N1: H1 except (N2, N3): H2 finally: F` -> STry B [(N1, H1); (N2, H2); (N3, H2)] F; a bare
+      `except:` has the name ""; a dotted exception class is named by its source text; no finally is SSkip.
+  N15 a name read in value position that is not a name of the frame (a global, a builtin, another function of
+      the module: `list`, `get_next_imf` handed to functools.partial, a module-level constant) is the
+      zero-argument primitive of that name, ECall "list" [] [], not a variable.
+FAIL CLOSED: any other statement or expression shape inside the translated regions (break, while/for/try-else,
+`except ... as e`, `del name`, assert, yield, await, walrus, global/nonlocal, import, nested def/class,
+multiple or nested-tuple assignment targets, a logger call in value position, non-ASCII text, ...) is a
+failure: nothing of the function is translated.
+
+Environment: EMD_REPO selects the source tree (default /repo); the output is $EMD_COQ_DIR/gen/<out_name> (default
 /verif/coq; the harness points EMD_COQ_DIR at a private copy of the Coq tree whenever EMD_REPO is not /repo,
-so a seeded evaluation never touches the shared tree); EMD_SKELETON_OUT overrides the full output path.
-FAIL CLOSED: any other statement or expression shape inside the translated regions ends the run with exit
-code 2 and a message, and the generated file is not touched.
+so a seeded evaluation never touches the shared tree). For Gen_Skeleton.v only, EMD_SKELETON_OUT overrides
+the full output path. Files are rewritten only when their content changes.
+On failure: this file's own driver (registered in harness/common.py GEN_OUTPUT) ends with exit code 2 and a
+message and leaves Gen_Skeleton.v untouched; generate() called from any other driver (on_fail='poison')
+REPLACES the generated file by one that cannot compile and carries the message, and returns False - so only
+the proofs that depend on that file break, which is how an unregistered driver stays harmless to every
+other property (an unregistered driver must therefore always exit 0).
 """
 import ast
 import os
@@ -50,6 +89,10 @@ FUNCS = [('get_next_imf', 'body'), ('sift', 'body'), ('mask_sift', 'loop')]
 
 CMP = {ast.Eq: 'CEq', ast.NotEq: 'CNe', ast.Lt: 'CLt', ast.Gt: 'CGt', ast.LtE: 'CLe', ast.GtE: 'CGe'}
 AR = {ast.Add: 'AAdd', ast.Sub: 'ASub', ast.Mult: 'AMul', ast.FloorDiv: 'AFloorDiv'}
+OPSYM = {ast.Add: '+', ast.Sub: '-', ast.Mult: '*', ast.FloorDiv: '//', ast.Div: '/', ast.Mod: '%', ast.Pow: '**',
+         ast.MatMult: '@', ast.BitAnd: '&', ast.BitOr: '|', ast.BitXor: '^', ast.LShift: '<<', ast.RShift: '>>'}
+SCOPES = (ast.FunctionDef, ast.AsyncFunctionDef, ast.ClassDef, ast.Lambda,
+          ast.ListComp, ast.SetComp, ast.DictComp, ast.GeneratorExp)
 
 
 class Unknown(Exception):
@@ -67,6 +110,7 @@ def unknown(node, what):
 
 
 CUR = ['?']
+FRAME = [None]          # the names of the frame being translated (None: every non-module name counts)
 
 
 def cstr(s, node=None):
@@ -98,57 +142,92 @@ def is_logging(node):
     return False
 
 
+# ---- the names of a frame ------------------------------------------------------------------
+def param_names(fn):
+    a = fn.args
+    return ([p.arg for p in a.posonlyargs] + [p.arg for p in a.args] + ([a.vararg.arg] if a.vararg else [])
+            + [p.arg for p in a.kwonlyargs] + ([a.kwarg.arg] if a.kwarg else []))
+
+
+def frame_names(fn):
+    """Parameters and every name the function binds itself (not inside nested scopes)."""
+    names = set(param_names(fn)) if isinstance(fn, (ast.FunctionDef, ast.AsyncFunctionDef)) else set()
+
+    def walk(n):
+        for c in ast.iter_child_nodes(n):
+            if isinstance(c, (ast.FunctionDef, ast.AsyncFunctionDef, ast.ClassDef)):
+                names.add(c.name)
+                continue
+            if isinstance(c, SCOPES):
+                continue
+            if isinstance(c, ast.Name) and isinstance(c.ctx, (ast.Store, ast.Del)):
+                names.add(c.id)
+            if isinstance(c, ast.ExceptHandler) and c.name:
+                names.add(c.name)
+            if isinstance(c, (ast.Import, ast.ImportFrom)):
+                for al in c.names:
+                    names.add((al.asname or al.name).split('.')[0])
+            walk(c)
+    for s in fn.body:
+        if isinstance(s, (ast.FunctionDef, ast.AsyncFunctionDef, ast.ClassDef)):
+            names.add(s.name)
+        elif not isinstance(s, SCOPES):
+            walk(ast.Module(body=[s], type_ignores=[]))
+    return names
+
+
 # ---- opaque forms (N7) ---------------------------------------------------------------------
-def check_opaque(node):
-    """Only shapes whose free variables are exactly their Name nodes may occur inside an opaque form."""
-    if isinstance(node, (ast.Name, ast.Constant)):
+def free_names(node, bound, acc):
+    """Name nodes read in `node` that are not bound inside it (comprehension targets, lambda parameters)."""
+    if isinstance(node, ast.Name):
+        if not isinstance(node.ctx, ast.Load):
+            unknown(node, 'store inside opaque form')
+        if node.id not in bound:
+            acc.append(node)
         return
-    if isinstance(node, ast.Attribute):
-        return check_opaque(node.value)
-    if isinstance(node, ast.Subscript):
-        check_opaque(node.value)
-        return check_opaque(node.slice)
-    if isinstance(node, ast.Slice):
-        for p in (node.lower, node.upper, node.step):
-            if p is not None:
-                check_opaque(p)
+    if isinstance(node, (ast.NamedExpr, ast.Await, ast.Yield, ast.YieldFrom)):
+        unknown(node, 'shape inside opaque form')
+    if isinstance(node, (ast.ListComp, ast.SetComp, ast.GeneratorExp, ast.DictComp)):
+        inner = set(bound)
+        for g in node.generators:
+            if g.is_async:
+                unknown(node, 'async comprehension')
+            free_names(g.iter, inner, acc)
+            for t in ast.walk(g.target):
+                if isinstance(t, ast.Name):
+                    inner.add(t.id)
+                elif not isinstance(t, (ast.Tuple, ast.List, ast.Starred, ast.Store)):
+                    unknown(node, 'comprehension target')
+            for c in g.ifs:
+                free_names(c, inner, acc)
+        for part in ([node.key, node.value] if isinstance(node, ast.DictComp) else [node.elt]):
+            free_names(part, inner, acc)
         return
-    if isinstance(node, (ast.Tuple, ast.List)):
-        for p in node.elts:
-            check_opaque(p)
+    if isinstance(node, ast.Lambda):
+        a = node.args
+        for d in list(a.defaults) + [d for d in a.kw_defaults if d is not None]:
+            free_names(d, bound, acc)
+        free_names(node.body, set(bound) | set(param_names(node)), acc)
         return
-    if isinstance(node, ast.Dict):
-        for k, v in zip(node.keys, node.values):
-            if k is None:
-                unknown(node, 'dict splat inside opaque form')
-            check_opaque(k)
-            check_opaque(v)
-        return
-    if isinstance(node, ast.UnaryOp) and isinstance(node.op, ast.USub):
-        return check_opaque(node.operand)
-    if isinstance(node, ast.Call) and isinstance(node.func, ast.Attribute):
-        check_opaque(node.func)
-        for a in node.args:
-            check_opaque(a)
-        for k in node.keywords:
-            if k.arg is None:
-                unknown(node, 'keyword splat inside opaque form')
-            check_opaque(k.value)
-        return
-    unknown(node, 'shape inside opaque form')
+    for c in ast.iter_child_nodes(node):
+        free_names(c, bound, acc)
+
+
+def opaque_vars(node):
+    acc = []
+    free_names(node, set(), acc)
+    seen = []
+    for n in sorted(acc, key=lambda n: (n.lineno, n.col_offset)):
+        if n.id in MODULES or n.id in seen:
+            continue
+        if FRAME[0] is not None and n.id not in FRAME[0]:
+            continue
+        seen.append(n.id)
+    return seen
 
 
 def opaque(node):
-    check_opaque(node)
-    names = sorted((n for n in ast.walk(node) if isinstance(n, ast.Name)),
-                   key=lambda n: (n.lineno, n.col_offset))
-    seen = []
-    for n in names:
-        if not isinstance(n.ctx, ast.Load):
-            unknown(node, 'store inside opaque form')
-        if n.id not in MODULES and n.id not in seen:
-            seen.append(n.id)
-    return 'ECall %s %s []' % (cstr(ast.unparse(node), node), clist('EVar %s' % cstr(v) for v in seen))
+    return 'ECall %s %s []' % (cstr(ast.unparse(node), node), clist('EVar %s' % cstr(v) for v in opaque_vars(node)))
 
 
 # ---- expressions ---------------------------------------------------------------------------
@@ -163,48 +242,52 @@ def expr(n):
             return 'ENat %d' % v
         if type(v) is str:
             return 'EStr %s' % cstr(v, n)
-        unknown(n, 'constant')
+        return opaque(n)                                                       # float, complex, bytes, ...
     if isinstance(n, ast.Name):
         if not isinstance(n.ctx, ast.Load):
             unknown(n, 'name context')
         if n.id in MODULES:
             unknown(n, 'bare module name')
+        if FRAME[0] is not None and n.id not in FRAME[0]:
+            return 'ECall %s [] []' % cstr(n.id)                               # N15: a global / builtin
         return 'EVar %s' % cstr(n.id)
     if isinstance(n, (ast.Tuple, ast.List)):
         if any(isinstance(e, ast.Starred) for e in n.elts):
-            unknown(n, 'starred element')
+            return opaque(n)
         return 'EList %s' % clist(expr(e) for e in n.elts)
     if isinstance(n, ast.Compare):
         if len(n.ops) != 1:
-            unknown(n, 'chained comparison')
+            return opaque(n)
         op, a, b = n.ops[0], n.left, n.comparators[0]
         if isinstance(op, (ast.Is, ast.IsNot)):
             if not (isinstance(b, ast.Constant) and b.value is None):
-                unknown(n, '`is` with something other than None')
+                return opaque(n)
             r = 'EIsNone (%s)' % expr(a)
             return r if isinstance(op, ast.Is) else 'ENot (%s)' % r
         if type(op) in CMP:
             return 'ECmp %s (%s) (%s)' % (CMP[type(op)], expr(a), expr(b))
-        unknown(n, 'comparison operator')
+        return opaque(n)                                                       # in, not in
     if isinstance(n, ast.BoolOp):
         c = 'EOr' if isinstance(n.op, ast.Or) else 'EAnd'
         r = expr(n.values[-1])
         for v in n.values[-2::-1]:
             r = '%s (%s) (%s)' % (c, expr(v), r)
         return r
-    if isinstance(n, ast.UnaryOp) and isinstance(n.op, ast.Not):
-        return 'ENot (%s)' % expr(n.operand)
+    if isinstance(n, ast.UnaryOp):
+        if isinstance(n.op, ast.Not):
+            return 'ENot (%s)' % expr(n.operand)
+        return opaque(n)                                                       # - + ~
     if isinstance(n, ast.BinOp):
         if type(n.op) not in AR:
-            unknown(n, 'binary operator')
+            return opaque(n)
         return 'EArith %s (%s) (%s)' % (AR[type(n.op)], expr(n.left), expr(n.right))
     if isinstance(n, ast.Call):
         d = dotted(n.func)
+        if d is not None and d[0] == LOGGER:
+            unknown(n, 'logger call in value position')
         if d is not None and (len(d) == 1 or d[0] in MODULES):
-            if d[0] == LOGGER:
-                unknown(n, 'logger call in value position')
             if any(isinstance(a, ast.Starred) for a in n.args):
-                unknown(n, 'starred argument')
+                return opaque(n)
             args = clist(expr(a) for a in n.args)
             kws = clist('(%s, %s)' % (cstr('**' if k.arg is None else k.arg), expr(k.value)) for k in n.keywords)
             return 'ECall %s %s %s' % (cstr('.'.join(d)), args, kws)
@@ -212,25 +295,39 @@ def expr(n):
                 and type(n.func.value.value) is str and not n.keywords \
                 and not any(isinstance(a, ast.Starred) for a in n.args):
             return 'ECall "str.format" %s []' % clist([expr(n.func.value)] + [expr(a) for a in n.args])     # N10
-        if isinstance(n.func, ast.Attribute):
-            return opaque(n)
-        unknown(n, 'callee')
+        return opaque(n)
     if isinstance(n, ast.Subscript):
         s = n.slice
         if isinstance(s, ast.Name) or (isinstance(s, ast.Constant) and type(s.value) is int and s.value >= 0):
             return 'EIndex (%s) (%s)' % (expr(n.value), expr(s))
         return opaque(n)
-    if isinstance(n, ast.Attribute):
-        d = dotted(n)
-        if d is not None and d[0] in MODULES:
-            unknown(n, 'module attribute in value position')
-        return opaque(n)
-    if isinstance(n, ast.Dict):
+    if isinstance(n, (ast.Attribute, ast.Dict, ast.Set, ast.ListComp, ast.SetComp, ast.DictComp, ast.GeneratorExp,
+                      ast.Lambda, ast.IfExp, ast.JoinedStr)):
         return opaque(n)
     unknown(n, 'expression')
 
 
 # ---- statements ----------------------------------------------------------------------------
+def target_base(t):
+    """The base variable of a subscript / attribute target chain."""
+    b = t
+    while isinstance(b, (ast.Subscript, ast.Attribute)):
+        b = b.value
+    if not isinstance(b, ast.Name) or b.id in MODULES:
+        unknown(t, 'store target')
+    return b.id
+
+
+def store(pad, t, label, value):
+    """N11: t is a Subscript / Attribute target; label the primitive's name; value the new value or None."""
+    base = target_base(t)
+    load = ast.parse(ast.unparse(t), mode='eval').body              # the same text, read instead of stored
+    for x in ast.walk(load):
+        x.lineno, x.col_offset = getattr(x, 'lineno', 1), getattr(x, 'col_offset', 0)
+    args = ['EVar %s' % cstr(v) for v in opaque_vars(load)] + ([] if value is None else [expr(value)])
+    return pad + 'SAssign %s (ECall %s %s [])' % (cstr(base), cstr(label, t), clist(args))
+
+
 def stmt(n, ind):
     pad = ' ' * ind
     if is_logging(n):
@@ -249,18 +346,60 @@ def stmt(n, ind):
             return pad + 'SAssign %s (%s)' % (cstr(t.id), expr(n.value))
         if isinstance(t, ast.Tuple) and all(isinstance(e, ast.Name) for e in t.elts):
             return pad + 'SUnpack %s (%s)' % (clist(cstr(e.id) for e in t.elts), expr(n.value))
+        if isinstance(t, (ast.Subscript, ast.Attribute)):
+            return store(pad, t, ast.unparse(t) + ' =', n.value)                                            # N11
         unknown(n, 'assignment target')
     if isinstance(n, ast.AugAssign):
-        if not isinstance(n.target, ast.Name) or type(n.op) not in AR:
+        if isinstance(n.target, (ast.Subscript, ast.Attribute)) and type(n.op) in OPSYM:
+            return store(pad, n.target, '%s %s=' % (ast.unparse(n.target), OPSYM[type(n.op)]), n.value)     # N11
+        if not isinstance(n.target, ast.Name) or type(n.op) not in OPSYM:
             unknown(n, 'augmented assignment')
+        if type(n.op) not in AR:
+            rd = ast.copy_location(ast.Name(id=n.target.id, ctx=ast.Load()), n.target)
+            return pad + 'SAssign %s (%s)' % (cstr(n.target.id), opaque(
+                ast.copy_location(ast.BinOp(left=rd, op=n.op, right=n.value), n)))
         return pad + 'SAssign %s (EArith %s (EVar %s) (%s))' % (
             cstr(n.target.id), AR[type(n.op)], cstr(n.target.id), expr(n.value))
+    if isinstance(n, ast.Delete):
+        if len(n.targets) == 1 and isinstance(n.targets[0], (ast.Subscript, ast.Attribute)):
+            return store(pad, n.targets[0], 'del ' + ast.unparse(n.targets[0]), None)                       # N11
+        unknown(n, 'del form')
     if isinstance(n, ast.If):
         return '%sSIf (%s)\n%s\n%s' % (pad, expr(n.test), block(n.body, ind + 2), block(n.orelse, ind + 2))
     if isinstance(n, ast.While):
         if n.orelse:
             unknown(n, 'while-else')
         return '%sSWhile (%s)\n%s' % (pad, expr(n.test), block(n.body, ind + 2))
+    if isinstance(n, ast.For):
+        if n.orelse:
+            unknown(n, 'for-else')
+        t = n.target
+        if isinstance(t, ast.Name):
+            return '%sSFor %s (%s)\n%s' % (pad, cstr(t.id), expr(n.iter), block(n.body, ind + 2))
+        if isinstance(t, ast.Tuple) and all(isinstance(e, ast.Name) for e in t.elts):                       # N13
+            x = cstr(ast.unparse(t), t)
+            unpack = '%s(SUnpack %s (EVar %s))' % (' ' * (ind + 4), clist(cstr(e.id) for e in t.elts), x)
+            return '%sSFor %s (%s)\n%s  (SSeq\n%s\n%s)' % (pad, x, expr(n.iter), pad, unpack, block(n.body, ind + 4))
+        unknown(n, 'for target')
+    if isinstance(n, ast.Try):                                                                              # N14
+        if n.orelse:
+            unknown(n, 'try-else')
+        hs = []
+        for h in n.handlers:
+            if h.name is not None:
+                unknown(h, '`except ... as name`')
+            if h.type is None:
+                names = ['']
+            else:
+                names = []
+                for c in (h.type.elts if isinstance(h.type, ast.Tuple) else [h.type]):
+                    if dotted(c) is None:
+                        unknown(h, 'exception class')
+                    names.append('.'.join(dotted(c)))
+            for nm in names:
+                hs.append('%s(%s,\n%s)' % (' ' * (ind + 4), cstr(nm, h), block(h.body, ind + 6)))
+        hl = '%s[]' % (' ' * (ind + 2)) if not hs else '%s[\n%s\n%s]' % (' ' * (ind + 2), ';\n'.join(hs), ' ' * (ind + 2))
+        return '%sSTry\n%s\n%s\n%s' % (pad, block(n.body, ind + 2), hl, block(n.finalbody, ind + 2))
     if isinstance(n, ast.Continue):
         return pad + 'SContinue'
     if isinstance(n, ast.Raise):
@@ -274,8 +413,27 @@ def stmt(n, ind):
     unknown(n, 'statement')
 
 
+def splice_with(stmts):
+    """N12: `with E as p: body` -> `p = E` ; body, spliced into the enclosing statement list."""
+    out = []
+    for s in stmts:
+        if isinstance(s, ast.With):
+            for it in s.items:
+                if it.optional_vars is None:
+                    out.append(ast.copy_location(ast.Expr(value=it.context_expr), s))
+                elif isinstance(it.optional_vars, ast.Name):
+                    out.append(ast.copy_location(ast.Assign(targets=[it.optional_vars], value=it.context_expr), s))
+                else:
+                    unknown(s, '`with ... as` target')
+            out.extend(splice_with(s.body))
+        else:
+            out.append(s)
+    return out
+
+
 def block(stmts, ind):
     """Right-nested SSeq; the empty block is SSkip."""
+    stmts = splice_with(stmts)
     pad = ' ' * ind
     if not stmts:
         return pad + 'SSkip'
@@ -285,73 +443,205 @@ def block(stmts, ind):
 
 
 def region(fn, mode):
+    """The top-level statements of fn that are translated.
+    'body'       all of them
+    'loop'       = 'while:0'
+    'while:<k>'  the k-th (from 0) top-level while, the run of plain `name = ...` assignments right before
+                 it, and everything after it
+    'for:<k>'    the same for the k-th top-level for
+    'slice:<i>:<j>'  the top-level statements i (from 0, docstring not counted) to j (exclusive; empty = end)"""
     body = list(fn.body)
     if body and isinstance(body[0], ast.Expr) and isinstance(body[0].value, ast.Constant) \
             and isinstance(body[0].value.value, str):
         body = body[1:]                                                        # N1
     if mode == 'body':
         return body
-    loops = [i for i, s in enumerate(body) if isinstance(s, ast.While)]
-    if not loops:
-        raise Unknown('%s: no top-level while loop' % fn.name)
-    start = loops[0]
+    kind, _, rest = mode.partition(':')
+    if kind == 'slice':
+        i, _, j = rest.partition(':')
+        try:
+            return body[int(i):(int(j) if j else None)]
+        except ValueError:
+            raise Unknown('%s: bad mode %r' % (fn.name, mode))
+    if kind not in ('loop', 'while', 'for') or (kind == 'loop' and rest):
+        raise Unknown('%s: bad mode %r' % (fn.name, mode))
+    try:
+        k = int(rest) if rest else 0
+    except ValueError:
+        raise Unknown('%s: bad mode %r' % (fn.name, mode))
+    cls = ast.For if kind == 'for' else ast.While
+    loops = [i for i, s in enumerate(body) if isinstance(s, cls)]
+    if len(loops) <= k:
+        raise Unknown('%s: no top-level %s loop%s' % (fn.name, 'for' if kind == 'for' else 'while',
+                                                     '' if k == 0 else ' number %d' % k))
+    start = loops[k]
     while start > 0 and isinstance(body[start - 1], ast.Assign) and len(body[start - 1].targets) == 1 \
             and isinstance(body[start - 1].targets[0], ast.Name):
         start -= 1
     return body[start:]
 
 
-def params(fn):
+def params(fn, strict=True):
     a = fn.args
-    if a.vararg or a.kwarg or a.posonlyargs or a.kwonlyargs:
+    if strict and (a.vararg or a.kwarg or a.posonlyargs or a.kwonlyargs):
         raise Unknown('%s: parameter kinds other than plain ones' % fn.name)
-    return [p.arg for p in a.args]
+    return param_names(fn)
 
 
-def main():
+def describe(mode):
+    if mode == 'body':
+        return 'whole body'
+    if mode == 'loop':
+        return 'initialisation run + first top-level while + rest'
+    kind, _, rest = mode.partition(':')
+    if kind == 'slice':
+        return 'top-level statements [%s] (docstring not counted)' % rest
+    return 'initialisation run + top-level %s number %s + rest' % (kind, rest or '0')
+
+
+def resolve(tree, defs, path):
+    """'f', 'Class.method', 'outer.inner' (nested functions / closures) -> the chain of definitions, outermost first."""
+    parts = path.split('.')
+    if parts[0] in defs:
+        chain = [defs[parts[0]]]
+    else:
+        tops = [n for n in tree.body if isinstance(n, ast.ClassDef) and n.name == parts[0]]
+        if len(tops) != 1:
+            raise Unknown('function %s not found' % path)
+        chain = tops
+    for p in parts[1:]:
+        found = []
+
+        def walk(n):
+            for c in ast.iter_child_nodes(n):
+                if isinstance(c, (ast.FunctionDef, ast.ClassDef)):
+                    if c.name == p:
+                        found.append(c)
+                elif not isinstance(c, SCOPES):
+                    walk(c)
+        walk(chain[-1])
+        if len(found) != 1:
+            raise Unknown('%s: %s definitions of %s inside %s' % (path, len(found) or 'no', p, chain[-1].name))
+        chain.append(found[0])
+    if not isinstance(chain[-1], ast.FunctionDef):
+        raise Unknown('%s is not a function' % path)
+    return chain
+
+
+LEGACY_HEADER = [
+    '(* GENERATED by harness/gen_skeleton.py from emd/sift.py - do not edit; rewritten on every run.',
+    '   Structural translation of the control skeletons into the mini language of lib/PyLoop.v.',
+    '   Normalisations N1-N10 are listed in the header of harness/gen_skeleton.py (docstrings dropped,',
+    '   logger calls -> SSkip, op= expanded, is None -> EIsNone, value-method/slicing chains and dict',
+    '   displays -> ONE opaque ECall named by their literal source text with their free variables). *)']
+
+
+def translate(src_path, funcs, header, modules=frozenset({'np'}), logger='logger', strict_params=False):
+    """The text of the generated file; raises Unknown (fail closed)."""
+    global MODULES, LOGGER
+    MODULES, LOGGER = set(modules), logger
     try:
-        src = open(SRC).read()
+        src = open(src_path).read()
         tree = ast.parse(src)
     except (OSError, SyntaxError) as e:
-        die('cannot read/parse %s: %s' % (SRC, e))
+        raise Unknown('cannot read/parse %s: %s' % (src_path, e))
     defs = {}
     for n in tree.body:
         if isinstance(n, ast.FunctionDef):
             if n.name in defs:
-                die('function %s is defined twice' % n.name)
+                raise Unknown('function %s is defined twice' % n.name)
             defs[n.name] = n
-    out = ['(* GENERATED by harness/gen_skeleton.py from emd/sift.py - do not edit; rewritten on every run.',
-           '   Structural translation of the control skeletons into the mini language of lib/PyLoop.v.',
-           '   Normalisations N1-N10 are listed in the header of harness/gen_skeleton.py (docstrings dropped,',
-           '   logger calls -> SSkip, op= expanded, is None -> EIsNone, value-method/slicing chains and dict',
-           '   displays -> ONE opaque ECall named by their literal source text with their free variables). *)',
-           'From Coq Require Import String List.',
-           'From EmdV Require Import lib.PyLoop.',
-           'Import ListNotations.',
-           'Open Scope string_scope.',
-           '']
-    try:
-        for name, mode in FUNCS:
-            if name not in defs:
-                raise Unknown('function %s not found in %s' % (name, SRC))
-            CUR[0] = name
-            fn = defs[name]
-            out.append('Definition params_%s : list string :=\n  %s.\n' % (name, clist(cstr(p) for p in params(fn))))
-            what = 'whole body' if mode == 'body' else 'initialisation run + first top-level while + rest'
-            out.append('(* %s: %s *)' % (name, what))
-            out.append('Definition prog_%s : stmt :=\n%s.\n' % (name, block(region(fn, mode), 2)))
-    except Unknown as e:
-        die(str(e))
-    text = '\n'.join(out)
-    old = open(OUT).read() if os.path.exists(OUT) else None
+    out = list(header) + ['From Coq Require Import String List.',
+                          'From EmdV Require Import lib.PyLoop.',
+                          'Import ListNotations.',
+                          'Open Scope string_scope.',
+                          '']
+    idents = set()
+    for entry in funcs:
+        name, mode = entry[0], entry[1]
+        ident = entry[2] if len(entry) > 2 else name.replace('.', '_')
+        if not ident.isidentifier() or not ident.isascii() or ident in idents:
+            raise Unknown('bad or repeated Coq name %r for %s' % (ident, name))
+        idents.add(ident)
+        CUR[0] = name
+        try:
+            chain = resolve(tree, defs, name)
+        except Unknown as e:
+            if '.' not in name and name not in defs:
+                raise Unknown('function %s not found in %s' % (name, src_path))
+            raise e
+        fn = chain[-1]
+        FRAME[0] = set()
+        for f in chain:
+            FRAME[0] |= frame_names(f)
+        out.append('Definition params_%s : list string :=\n  %s.\n' % (
+            ident, clist(cstr(p) for p in params(fn, strict_params))))
+        out.append('(* %s: %s *)' % (name, describe(mode)))
+        out.append('Definition prog_%s : stmt :=\n%s.\n' % (ident, block(region(fn, mode), 2)))
+    return '\n'.join(out)
+
+
+def write_if_changed(path, text, tag='gen_skeleton'):
+    old = open(path).read() if os.path.exists(path) else None
     if old != text:
-        os.makedirs(os.path.dirname(OUT), exist_ok=True)
-        with open(OUT + '.tmp', 'w') as f:
+        os.makedirs(os.path.dirname(path), exist_ok=True)
+        with open(path + '.tmp', 'w') as f:
             f.write(text)
-        os.replace(OUT + '.tmp', OUT)
-        print('gen_skeleton: wrote %s' % OUT)
+        os.replace(path + '.tmp', path)
+        print('%s: wrote %s' % (tag, path))
     else:
-        print('gen_skeleton: %s unchanged' % OUT)
+        print('%s: %s unchanged' % (tag, path))
+
+
+def poison(msg):
+    """A generated file that cannot compile and says why (see the module docstring, 'On failure')."""
+    clean = ''.join(c if 32 <= ord(c) <= 126 and c != '"' else ' ' for c in msg)
+    return ('(* GENERATED: the translator FAILED CLOSED - this file does not compile on purpose. *)\n'
+            'From Coq Require Import String.\n'
+            'Definition translator_failed_closed : False :=\n  "%s"%%string.\n' % clean)
+
+
+def generate(src_relpath, funcs, out_name, header_note, modules=frozenset({'np'}), logger='logger',
+             on_fail='poison', out_path=None, header=None, strict_params=False):
+    """Translate functions of $EMD_REPO/<src_relpath> into $EMD_COQ_DIR/gen/<out_name>.
+
+    funcs        [(path, mode)] or [(path, mode, coq_name)]: path = 'f' | 'Class.method' | 'outer.inner' (nested
+                 functions / closures by name path); mode = 'body' | 'loop' | 'while:<k>' | 'for:<k>' |
+                 'slice:<i>:<j>' (see region()); emits `params_<coq_name>` and `prog_<coq_name>`
+                 (coq_name defaults to the path with '.' -> '_').
+    header_note  one line (or a list of lines) for the comment at the top of the generated file.
+    modules      module aliases of the source file (N6, N7); logger = the name whose .info/.debug/... calls are N2.
+    on_fail      'poison' (default): on failure write a file that cannot compile and return False;
+                 'exit': message + exit code 2, file untouched (only for drivers registered in common.py).
+    Returns True when the translation succeeded. The file is rewritten only when its content changes."""
+    tag = os.path.splitext(os.path.basename(sys.argv[0] or 'gen_skeleton'))[0]
+    path = out_path or os.path.join(COQ_DIR, 'gen', out_name)
+    src_path = os.path.join(REPO, src_relpath)
+    if header is None:
+        notes = [header_note] if isinstance(header_note, str) else list(header_note)
+        header = ['(* GENERATED by harness/%s.py from %s - do not edit; rewritten on every run.' % (tag, src_relpath),
+                  '   Structural translation into the mini language of lib/PyLoop.v by the library harness/gen_skeleton.py',
+                  '   (normalisations N1-N15 are listed in its header).'] + ['   ' + ln for ln in notes]
+        header[-1] += ' *)'
+    try:
+        text = translate(src_path, funcs, header, modules, logger, strict_params)
+        htext = '\n'.join(header)
+        if htext.count('(*') != 1 or htext.count('*)') != 1 or not htext.startswith('(*') or not htext.endswith('*)') \
+                or '"' in htext:
+            raise Unknown('header comment is not one well-formed Coq comment (no nested comment marks, no quotes)')
+    except Unknown as e:
+        if on_fail == 'exit':
+            die(str(e))
+        sys.stderr.write('%s: FAIL-CLOSED: %s\n' % (tag, e))
+        write_if_changed(path, poison('%s: %s' % (tag, e)), tag)
+        return False
+    write_if_changed(path, text, tag)
+    return True
+
+
+def main():
+    generate(os.path.join('emd', 'sift.py'), FUNCS, 'Gen_Skeleton.v', None, modules={'np'}, logger='logger',
+             on_fail='exit', out_path=OUT, header=LEGACY_HEADER, strict_params=True)
 
 
 if __name__ == '__main__':
